@@ -16,12 +16,14 @@ fn any_filter<S: Src, const F: usize>(s: &mut S) -> (bool, [u8; F], FilterKind) 
 /// C15: `DownloadPolicy::matches` = (NothingExcept: some filter matches) / (EverythingExcept: no
 /// filter matches); prefix filter = starts_with, exact filter = equality.  Two filters of lengths
 /// F1, F2 (0 = the empty filter), key of length K, all bytes symbolic (non-UTF-8 included).
-pub fn policy_matches<S: Src, const F1: usize, const F2: usize, const K: usize>(s: &mut S) {
+pub fn policy_matches<S: Src, const F1: usize, const F2: usize, const K: usize, const NF: usize>(s: &mut S) {
     let (e1, b1, f1) = any_filter::<S, F1>(s);
     let (e2, b2, f2) = any_filter::<S, F2>(s);
     let key: [u8; K] = s.arr();
-    let n = s.u8() % 3; // number of filters in the list: 0, 1, 2
-    let mut filters = Vec::new();
+    // number of filters in the list: concrete per instance (a Vec of symbolic length is a memory
+    // bomb for CBMC's array theory)
+    let n = NF as u8;
+    let mut filters = Vec::with_capacity(2);
     if n >= 1 {
         filters.push(f1);
     }
@@ -38,8 +40,8 @@ pub fn policy_matches<S: Src, const F1: usize, const F2: usize, const K: usize>(
     let any = (n >= 1 && m1) || (n >= 2 && m2);
     let want = if nothing_except { any } else { !any };
     let got = policy.matches(&entry);
-    cv!(s, n == 2 && !m1 && m2, "policy_matches: only the second filter matches");
-    cv!(s, n == 0, "policy_matches: empty filter list");
+    cv!(s, NF < 2 || (!m1 && m2), "policy_matches: only the second filter matches");
+    cv!(s, NF > 0 || got == !nothing_except, "policy_matches: empty filter list");
     ck!(s, got == want, "an entry is selected exactly when (nothing-except) some filter matches / (everything-except) no filter matches");
     std::mem::forget(policy);
     std::mem::forget(entry);
